@@ -2,6 +2,8 @@
 # tools/soak.sh <tier> "<seeds>" [ids...] — run checks at several seeds; print one line per run
 cd "$(dirname "$(readlink -f "$0")")/.." || exit 2
 tier=$1; seeds=$2; shift 2
+# inside `vp run --with-repo` build against the repository snapshot, so that edits to /repo do not disturb the run
+if [ -n "$VP_RUN_REPO" ] && [ -d "$VP_RUN_REPO" ]; then sed -i "s#=> /repo#=> $VP_RUN_REPO#" go.mod; fi
 ids="$@"
 [ -z "$ids" ] && ids=$(python3 -c "import json;print(' '.join(c['property_id'] for c in json.load(open('MANIFEST.json'))['checks']))")
 for s in $seeds; do for id in $ids; do
